@@ -398,6 +398,12 @@ let on_call (case : string) (cmd : string) (f : string) (a : sx list) =
     if not !tainted && discipline_ok () then begin generic_call pre_ fn a; ctx_call pre_ fn a end
   with Bad m -> report "DRIVER" ("monitor error: " ^ m)
 
+let canon_props () =
+  (* C08 also speaks about pending removes travelling inside merged states *)
+  (if !merges_seen then ["C03"] @ (if !all_per_actor && not !all_causal then ["C08"] else [])
+   else (if !all_causal then ["C01"] else []) @ (if !all_per_actor && (!disc <> 0 || not !all_causal) then ["C08"] else []))
+  @ (if is_map !ty then ["C05"] else [])
+
 (* ---- spec comparison at every observation *)
 let spec_check (know : int list) (s : sx) =
   let k = kset know in
@@ -448,7 +454,11 @@ let spec_check (know : int list) (s : sx) =
          disagreement, so this check is never attributed to a known finding *)
       let saved = !classes in
       classes := [];
-      expect "C05" (fun () -> "the map clock / key set / entry clocks differ from the key-level specification of the replica's knowledge (a key is present iff one of its applied updates is covered by no applied remove naming it)") ok;
+      (* theorem-backed for every property with a key-level corollary (Cxx_map_keys_* of proofs/MapKeys.v):
+         C05 always; C01 on causal op-only cases; C03 once states were merged; C08 when a delivery
+         overtook (per-actor order) -- the same attribution as the canonical comparison *)
+      expect_all (List.sort_uniq compare ("C05" :: canon_props ()))
+        (fun () -> "the map clock / key set / entry clocks differ from the key-level specification of the replica's knowledge (a key is present iff one of its applied updates is covered by no applied remove naming it)") ok;
       classes := saved
   | "gcounter" | "vclock" -> cmp "C11" show_vc vc_eqb (gcspec (history_of dot_sx) k) (vc_sx s)
   | "pncounter" ->
@@ -480,12 +490,6 @@ let spec_check (know : int list) (s : sx) =
                     (List.mapi (fun i x -> (i, x)) (List.rev !hist)) in
       cmp "C15" show_merkle merkle_eqb (merkle_spec model_hash nodes) (merkle_sx s)
   | _ -> ()
-
-let canon_props () =
-  (* C08 also speaks about pending removes travelling inside merged states *)
-  (if !merges_seen then ["C03"] @ (if !all_per_actor && not !all_causal then ["C08"] else [])
-   else (if !all_causal then ["C01"] else []) @ (if !all_per_actor && (!disc <> 0 || not !all_causal) then ["C08"] else []))
-  @ (if is_map !ty then ["C05"] else [])
 
 let on_event (case : string) (cmd : string) (x : sx) =
   cur := (case, cmd);
